@@ -846,7 +846,19 @@ def field_stream(ck, numpy):
                 HH, DD, LL, time, lab, fields, rhoi = objs
                 prop = ReducedDensityMatrixPropagator(timeaxis=time, Ham=HH, RTensor=LL, Efield=(fields[0] if nfield == 1 else fields), Trdip=DD)
                 s0 = snap(*objs)
-                r1 = numpy.array(prop.propagate(rhoi).data).copy()
+                e1 = prop.propagate(rhoi)
+                if e1 is None:
+                    # field-driven propagation with a tensor in operator form is not implemented in the package (the method is a stub that
+                    # returns nothing): nothing to compare beyond "the same outcome again, inputs untouched"
+                    ck.dist["field-driven with an operator-form tensor: no result returned"] += 1
+                    s1 = snap(*objs)
+                    if prop.propagate(rhoi) is not None:
+                        ck.fail("repeat:field-driven", "the same field-driven propagate() once returned nothing and once an evolution", inp)
+                    for k in s0:
+                        if s0[k].shape != s1[k].shape or float(numpy.abs(s0[k] - s1[k]).max()) > 1e-13 * max(1.0, float(numpy.abs(s0[k]).max())):
+                            ck.fail("frame:field-driven", "a field-driven propagate() changed an object it was given: %s" % k, dict(inp, changed=k))
+                    continue
+                r1 = numpy.array(e1.data).copy()
                 s1 = snap(*objs)
                 r2 = numpy.array(prop.propagate(rhoi).data).copy()
                 fo = build()
